@@ -324,6 +324,7 @@ func genC03(w *World, res *CheckResult) {
 	genCheckerPointer(w, res)
 	genCheckerConditional(w, res)
 	genCheckerUnary(w, res)
+	genCheckerVisits(w, res)
 	// static result type of arithmetic: checker.combined against the dynamic result kind of the helpers (cells shared with C14)
 	{
 		tmp := &CheckResult{}
